@@ -57,6 +57,10 @@ pub struct Scenario {
     pub script: Option<String>,
     /// the injected run-panics fire at the END of `run`, after the system has written through its guards
     pub panic_late: bool,
+    /// systems whose first setup call panics (async scripts: the script's first `S` unwinds, the caller goes on)
+    pub setup_panics: Vec<usize>,
+    /// the first dispatch is a `dispatch_seq`, whatever `mode` says (a history: sequential first, then `mode`)
+    pub first_seq: bool,
     /// the injected panics carry a typed (non-string) payload
     pub panic_typed: bool,
     /// where the user-supplied pool is handed to the builder: 0 = before the registrations, 1 = after them,
@@ -68,7 +72,7 @@ pub struct Scenario {
 
 impl Scenario {
     pub fn plain(ops: Vec<Op>, mode: Mode, dispatches: u8) -> Scenario {
-        Scenario { ops, mode, dispatches, user_pool: None, default_threads: None, panics: vec![], rendezvous: None, foreign_pool: None, script: None, panic_late: false, panic_typed: false, pool_placement: 0, script_in_pool: false }
+        Scenario { ops, mode, dispatches, user_pool: None, default_threads: None, panics: vec![], rendezvous: None, foreign_pool: None, script: None, panic_late: false, setup_panics: vec![], first_seq: false, panic_typed: false, pool_placement: 0, script_in_pool: false }
     }
 
     pub fn to_json(&self) -> Value {
@@ -84,6 +88,8 @@ impl Scenario {
             "script": self.script,
             "foreign_pool": self.foreign_pool,
             "panic_late": self.panic_late,
+            "setup_panics": self.setup_panics,
+            "first_seq": self.first_seq,
             "panic_typed": self.panic_typed,
             "pool_placement": self.pool_placement,
             "script_in_pool": self.script_in_pool,
@@ -112,6 +118,8 @@ impl Scenario {
             script: v.get("script").and_then(|x| x.as_str()).map(|x| x.to_string()),
             foreign_pool: v.get("foreign_pool").and_then(|x| x.as_u64()).map(|x| x as usize),
             panic_late: v.get("panic_late").and_then(|x| x.as_bool()).unwrap_or(false),
+            setup_panics: v.get("setup_panics").and_then(|x| x.as_array()).map(|a| a.iter().filter_map(|y| y.as_u64().map(|z| z as usize)).collect()).unwrap_or_default(),
+            first_seq: v.get("first_seq").and_then(|x| x.as_bool()).unwrap_or(false),
             panic_typed: v.get("panic_typed").and_then(|x| x.as_bool()).unwrap_or(false),
             pool_placement: v.get("pool_placement").and_then(|x| x.as_u64()).unwrap_or(0) as u8,
             script_in_pool: v.get("script_in_pool").and_then(|x| x.as_bool()).unwrap_or(false),
@@ -248,6 +256,9 @@ pub fn run_scenario(sc: &Scenario, twin: bool) -> ExecOut {
                 Beh::PanicRun(d)
             };
         }
+        for id in &sc.setup_panics {
+            b[*id] = Beh::PanicSetupOnce;
+        }
         if !twin {
             if let Some((ids, k)) = &sc.rendezvous {
                 for id in ids {
@@ -365,7 +376,7 @@ pub fn run_scenario(sc: &Scenario, twin: bool) -> ExecOut {
                 } else if foreign.is_some() {
                     unreachable!("foreign-pool scenarios run on the sendable form");
                 } else {
-                    run_dispatch(&mut d, &world, sc.mode);
+                    run_dispatch(&mut d, &world, if sc.first_seq && i == 1 { Mode::Seq } else { sc.mode });
                 }
             }));
             ctx.log(Ev::DispatchEnd, 0, 0);
@@ -885,12 +896,16 @@ pub fn analyze_async(sc: &Scenario, info: &PlanInfo, out: &ExecOut) -> Vec<Viol>
         if !(sc.panics.is_empty()) && r.contains("Sender dropped") {
             continue;
         }
+        // the injected first-setup panic: the call unwinds to the caller, who goes on with the script
+        if !sc.setup_panics.is_empty() && r.contains(PANIC_MARK) && r.contains(" setup sys=") {
+            continue;
+        }
         vs.push(v("C15", "async-call-panicked", format!("a call of the script panicked: {}", r)));
     }
     let script: Vec<char> = sc.script.as_deref().unwrap_or("").chars().chain(std::iter::once('O')).collect();
     let log = &out.log;
     // C13: every setup() call that returned has reached every system once - also while a dispatch is in flight
-    if sc.panics.is_empty() && !out.setups.is_empty() {
+    if sc.panics.is_empty() && sc.setup_panics.is_empty() && !out.setups.is_empty() {
         let ok_s = log.iter().filter(|e| e.kind == Ev::Script && e.aux != 0 && e.aux != 9 && script.get(e.sys as usize) == Some(&'S')).count() as u32;
         for n in info.nodes.iter().filter(|n| n.kind != Kind::Batch && !n.is_static) {
             if out.setups.get(n.id).copied().unwrap_or(ok_s) != ok_s {
@@ -1054,7 +1069,7 @@ pub fn analyze_async(sc: &Scenario, info: &PlanInfo, out: &ExecOut) -> Vec<Viol>
     }
     // exactly once per dispatch at the end (the script ends with world())
     if let Some(x) = all_done(&begun, &ended, issued) {
-        if out.results.iter().all(|r| r.is_none()) {
+        if out.results.iter().all(|r| r.as_ref().map_or(true, |m| !sc.setup_panics.is_empty() && m.contains(" setup sys="))) {
             vs.push(v("C15", "not-exactly-once", format!("after the script, system {} has run {} times for {} dispatches", x, begun[x], issued)));
             if sc.panics.is_empty() {
                 // the same fact under "k dispatches run every system k times": a dispatch() call that returned is a dispatch
